@@ -1,5 +1,6 @@
 import CelmaVerif.Lemmas.ConcurrencyRace
 import CelmaVerif.Lemmas.ConcurrencyManaged
+import CelmaVerif.Lemmas.ConcurrencyLive
 /-
   C20 — concurrency helpers keep their contract under every schedule.
   Property theorems only; the invariants are in Lemmas/Concurrency*.lean.  All theorems are about
@@ -42,11 +43,24 @@ theorem C20_singleton_no_deadlock (n : Nat) (sched : List Nat) (t : Nat) (ht : t
     ∃ u, u < n ∧ (srun Cfg.current n sched).pc u ≠ .done ∧ (srun Cfg.current n sched).blocked u = false :=
   (sinv_run _ n sched).progress n (sbound_run _ n sched) ht hnd
 
+/-- Completion is always possible: every schedule (hence every reachable state) can be extended by
+    at most 7·n further entries to a complete one — so "exactly once" is not vacuous anywhere. -/
+theorem C20_singleton_can_complete (n : Nat) (sched : List Nat) :
+    ∃ ext : List Nat, ext.length ≤ 7 * n ∧ (srun Cfg.current n (sched ++ ext)).complete n :=
+  srun_can_complete _ n sched
+
 /-- Race freedom in the model's sense: in no reachable state (every prefix of every schedule is a
     schedule) do two threads have enabled conflicting accesses to a non-atomic cell. -/
 theorem C20_singleton_race_free (n : Nat) (sched : List Nat) :
     ¬ SRacy Cfg.current n (srun Cfg.current n sched) :=
   sracy_of_inv_atomic _ n _ (sinv_run _ n sched) (by decide)
+
+/-- the same, spelled out for all intermediate states of one run -/
+theorem C20_singleton_race_free_along (n : Nat) (sched : List Nat) :
+    ¬ SRacyAlong Cfg.current n SState.init sched := by
+  rw [sracyAlong_iff]
+  rintro ⟨k, _, hr⟩
+  exact C20_singleton_race_free n (sched.take k) hr
 
 /-- For *any* way the cells are declared: mutual exclusion rules out every conflicting pair except
     "store into the cell the unlocked check reads" against "the unlocked check", and that pair is
